@@ -134,6 +134,8 @@ func (p *plug) Execute(ctx context.Context, req any) (any, *plugins.Error) {
 		l.park(tag, n, st.Gate)
 	}
 	if st.Out == Overrun {
+		// the guard is the action's timeout (5 s in overrun scenarios) plus a wide margin: if it expires the engine never
+		// cancelled the invocation's context, and the exit event below records that (CtxDone=false)
 		select {
 		case <-ctx.Done():
 		case <-time.After(overrunGuard):
@@ -175,7 +177,7 @@ func (p *plug) Execute(ctx context.Context, req any) (any, *plugins.Error) {
 	}
 }
 
-const overrunGuard = 20 * time.Second
+const overrunGuard = 8 * time.Second
 
 func (l *Lab) newRegistry() *registry.Register {
 	reg := registry.New()
